@@ -2,10 +2,11 @@ SPECIFICATION Spec
 CONSTANTS
   Scale = 40
   Ratios <- AllRatios
-  OffsetIds <- AllOffsets
-  MaxVec = 4
+  OffsetIds <- StepOffsets
+  MaxVec = 2
   NSteps = 3
-  Patterns = {"all"}
-  EmitMode = "none"
+  Patterns <- AllPatterns
+  EmitMode = "all"
 INVARIANTS TypeOK Partition Monotone PrefixExact StepIndependent
+ACTION_CONSTRAINT Emit
 CHECK_DEADLOCK FALSE
